@@ -9,7 +9,7 @@
    Signals are kept at VALUE level (no object identity): the routine installs a deep copy of the seed as the output's
    sensitivity, every stored snapshot (f0, dx_an) is a copy, add_sensitivity deep-copies its first term — no object is
    shared between the routine's bookkeeping and a Signal (fixed findings F24/F26: the seed is copied, and the output of
-   interest is reset after blk.reset()).
+   interest is reset after blk.reset(); F27: the inputs of interest are reset before the analytical pass).
    Modules are (shallow) response / vjp functions; `poly_module` is the family used by the harness. *)
 From Coq Require Import ZArith QArith Qcanon List Bool.
 Import ListNotations.
@@ -384,7 +384,9 @@ Definition finite_difference (c : fdcfg) (is_network : bool) (mods : net) (inps 
   | inl e => inl e
   | inr (pre, blk) =>
       let s0 := n_response pre s in
-      let s1 := n_response blk (n_reset blk s0) in
+      (* blk.reset(); [s.reset() for s in inps]  (fixed finding F27: also the entries of an input of interest that the
+         modules do not use, or use only through slices);  blk.response() *)
+      let s1 := n_response blk (fold_left (fun s r => reset_sig r s) inps (n_reset blk s0)) in
       let a := analytical c blk inps outps 0 (c_rand c) s1 in
       let '(s2, reps) := perturb_inputs c blk inps 0 outps (a_f0 a) (a_df a) (a_dx a) (a_store a) in
       inr {| f_reports := reps; f_store := s2; f_seeds := a_df a |}
